@@ -6,7 +6,7 @@
    relation to the exact predicate nf(r+r') >= |z-z'| is C07_touch_* below. *)
 From Coq Require Import List Arith Bool Permutation ZArith Reals Lia Lra.
 From Flocq Require Import Core BinarySingleNaN.
-From MPSV Require Import Cluster.ClusterModel Cluster.ClusterProps Cluster.ClusterSpec Cluster.Touch Cluster.TouchFlocq.
+From MPSV Require Import Cluster.ClusterModel Cluster.ClusterProps Cluster.ClusterSpec Cluster.ClusterOverride Cluster.Touch Cluster.TouchFlocq.
 From MPSV Require Import Cluster.FtouchModel Cluster.FtouchSpec Cluster.FtouchReal Cluster.FtouchLink.
 Import ListNotations.
 Local Open Scope nat_scope.
@@ -58,6 +58,49 @@ Theorem C07_newton_iso_test : forall touchN n,
   (forall i j, i < n -> j < n -> i <> j -> touchN i j = false).
 Proof. exact newton_isolated_spec. Qed.
 Print Assumptions C07_newton_iso_test.
+
+(* the test AS CODED: two nested loops over ALL pairs of roots on the radii stored in the roots, `break` out of the inner
+   loop at the first touching pair (mps_fcluster / mps_dcluster: the outer loop goes on; mps_mcluster: a second `break`
+   leaves the outer loop) -- equal to the plain test above *)
+Theorem C07_newton_iso_fd_as_coded : forall touchN n, newton_iso_fd touchN n = newton_isolated touchN n.
+Proof. exact newton_iso_fd_eq. Qed.
+Print Assumptions C07_newton_iso_fd_as_coded.
+
+Theorem C07_newton_iso_m_as_coded : forall touchN n, newton_iso_m touchN n = newton_isolated touchN n.
+Proof. exact newton_iso_m_eq. Qed.
+Print Assumptions C07_newton_iso_m_as_coded.
+
+(* THE WHOLE PROPERTY FOR ONE CALL of mps_fcluster / mps_dcluster (override test as coded on the stored radii [touchN], then
+   the traversal on the radii passed as argument [touch]): the call never runs out of fuel, the result is a partition of the
+   same roots without empty cluster, refines the previous partition; if every pair is separated w.r.t. the stored radii all
+   clusters are singletons; otherwise two members of a previous cluster stay together iff a chain of overlaps inside that
+   cluster links them. *)
+Theorem C07_step_fd_full : forall touchN touch old,
+  (forall a b, touch a b = touch b a) ->
+  Permutation (concat old) (seq 0 (length (concat old))) ->
+  exists new, cluster_step_fd touchN touch old = Some new /\
+    Permutation (concat new) (concat old) /\ NoDup (concat new) /\ (forall c, In c new -> c <> []) /\
+    (forall c, In c new -> exists cl, In cl old /\ incl c cl) /\
+    (all_separated touchN (length (concat old)) -> forall c, In c new -> exists i, c = [i]) /\
+    (~ all_separated touchN (length (concat old)) ->
+       forall cl i j, In cl old -> In i cl -> In j cl ->
+         ((exists c, In c new /\ In i c /\ In j c) <-> conn touch cl i j)).
+Proof. exact step_fd_full. Qed.
+Print Assumptions C07_step_fd_full.
+
+(* the same for one call of mps_mcluster, for EVERY order [pick] in which the block workers' hits are met *)
+Theorem C07_step_m_full : forall pick touchN touch old,
+  (forall a b, touch a b = touch b a) ->
+  Permutation (concat old) (seq 0 (length (concat old))) ->
+  exists new, cluster_step_m pick touchN touch old = Some new /\
+    Permutation (concat new) (concat old) /\ NoDup (concat new) /\ (forall c, In c new -> c <> []) /\
+    (forall c, In c new -> exists cl, In cl old /\ incl c cl) /\
+    (all_separated touchN (length (concat old)) -> forall c, In c new -> exists i, c = [i]) /\
+    (~ all_separated touchN (length (concat old)) ->
+       forall cl i j, In cl old -> In i cl -> In j cl ->
+         ((exists c, In c new /\ In i c /\ In j c) <-> conn touch cl i j)).
+Proof. exact step_m_full. Qed.
+Print Assumptions C07_step_m_full.
 
 (* parallel variant, for EVERY choice function [pick] (order in which block results are met) *)
 Theorem C07_par_fuel_enough : forall T old pick iso, cluster_par pick T iso old <> None.
@@ -286,6 +329,18 @@ Proof. vm_compute. reflexivity. Qed.
 Example C07_ex_newton_test :
   newton_isolated ex_T 4 = false /\ newton_isolated (fun i j => Nat.eqb i j) 4 = true.
 Proof. vm_compute. split; reflexivity. Qed.
+
+(* one whole call: stored radii that touch (ex_T) -> components; stored radii that separate every pair -> singletons,
+   although the radii passed as argument still overlap *)
+Example C07_ex_step :
+  cluster_step_fd ex_T ex_T [[0; 2; 1; 3]] = Some [[3]; [2; 1; 0]] /\
+  cluster_step_fd (fun i j => Nat.eqb i j) ex_T [[0; 2; 1; 3]] = Some [[3]; [2]; [1]; [0]] /\
+  cluster_step_m (fun q => 0) ex_T ex_T [[0; 2; 1; 3]] = Some [[3]; [2; 1; 0]] /\
+  cluster_step_m (fun q => 0) (fun i j => Nat.eqb i j) ex_T [[0; 2; 1; 3]] = Some [[3]; [2]; [1]; [0]] /\
+  newton_iso_fd ex_T 4 = false /\ newton_iso_m ex_T 4 = false /\
+  (* a pair touching only in the last row: found by both loop structures *)
+  newton_iso_fd (fun i j => Nat.eqb i 3 && Nat.eqb j 0) 4 = false /\ newton_iso_m (fun i j => Nat.eqb i 3 && Nat.eqb j 0) 4 = false.
+Proof. vm_compute. repeat split; reflexivity. Qed.
 
 (* the parallel model with a different splice order gives another list order, same classes *)
 Example C07_ex_par :
